@@ -52,6 +52,10 @@ THEOREMS = [
     "Optyx.Props.ParamTie.reads_slot",
     "Optyx.Props.ParamTie.asParameterValue_spec",
     "Optyx.Props.ParamTie.read_after_set",
+    "Optyx.Props.ParamTie.read_after_vecSet",
+    "Optyx.Props.ParamTie.vecSet_other",
+    "Optyx.Props.ParamTie.vectorParamSet_spec",
+    "Optyx.Props.ParamTie.matrixParamSet_spec",
     "Optyx.Props.PinsC12.anchors",
 ]
 ASSUMPTIONS = [
